@@ -92,7 +92,7 @@ def extra_qasm_gates(cirq, rng, k):
             opaque_gate(cirq, rng.choice([cirq.unitary(cirq.SWAP), cirq.unitary(cirq.ISWAP), cirq.unitary(cirq.ZZ ** 0.3), gen.rand_unitary(rng, 4), gen.rand_unitary(rng, 4)])),
             cirq.circuits.qasm_output.QasmTwoQubitGate.from_matrix(rng.choice([cirq.unitary(cirq.SWAP), gen.rand_unitary(rng, 4), cirq.unitary(cirq.ZZ ** -0.4)])),
         ])
-    return rng.choice([cirq.CCX, cirq.CCZ, cirq.CSWAP, cirq.CCX**t, cirq.CCZ**t, cirq.ControlledGate(cirq.CZ**t), cirq.IdentityGate(3)])
+    return rng.choice([cirq.CCX, cirq.CCZ, cirq.CSWAP, cirq.CCX**t, cirq.CCZ**t, cirq.ControlledGate(cirq.CZ**t), cirq.IdentityGate(3), cirq.CCY, cirq.CCY, cirq.CCY**t, cirq.CCY**-1, cirq.CCX**-1])
 
 
 def unitary_circuit(cirq, rng):
@@ -141,7 +141,7 @@ def measured_circuit(cirq, rng):
                 # sub-operations whose QASM form takes several statements: all of them are conditional
                 kk = min(rng.choice([1, 2, 3]), n)
                 multi = {1: [cirq.H**0.5, cirq.PhasedXPowGate(phase_exponent=0.3, exponent=0.4), cirq.H**-0.25],
-                         2: [cirq.CZ**0.5, cirq.ISWAP, cirq.SWAP**0.5, cirq.ZZ**0.3, cirq.IdentityGate(2)], 3: [cirq.CCZ, cirq.CCX**0.5, cirq.CSWAP]}[kk]
+                         2: [cirq.CZ**0.5, cirq.ISWAP, cirq.SWAP**0.5, cirq.ZZ**0.3, cirq.IdentityGate(2)], 3: [cirq.CCZ, cirq.CCX**0.5, cirq.CSWAP, cirq.CCY]}[kk]
                 base = rng.choice(multi).on(*rng.sample(qs, kk))
             if rng.random() < 0.35 and ' ' not in key:
                 import sympy
